@@ -117,10 +117,22 @@ def run(ctx):
     from ..symeval import tok
     res, tb_cancel = eval_cancel(ctx)
     tcon = f"{tb_cancel.module.relpath}::{tb_cancel.qual}"
+    refused = res.pop("refused", None)
     bad = {k: v for k, v in res.items() if k != "untracked" and v != [tok("ID")]}
     r2.check(not bad, tcon + "::id", "whatever gwf last knew about the job, ops.cancel_job receives exactly the id tracked under the target's own name",
              f"TrackingBackend.cancel(T) with T tracked as <id>: per last-known job state the scheduler's cancel gets {bad} (expected [<id>] always): "
              "a job that is still alive at the scheduler (unknown/error state) would never be cancelled, or another job would be", tb_cancel.where)
+    r2.check(refused is not None and refused[0] == "BackendError" and refused[1] == {"T": tok("ID"), "X": tok("IDX")}, tcon + "::refused",
+             "a cancellation the scheduler refuses surfaces as BackendError and leaves the job tracked (it is still alive; a retry reaches the scheduler)",
+             f"when the scheduler refuses the cancellation, TrackingBackend.cancel ends with {refused[0] if refused else None} and the tracked table is {refused[1] if refused else None}: "
+             "the still-live job is forgotten, a later `gwf cancel` of the target never reaches the scheduler and the next run submits a duplicate", tb_cancel.where)
+    from .evalhelpers import eval_call_failure
+    tbl, call_f = eval_call_failure(ctx, err_text="scancel: Terminating job 42\nscancel: error: Kill job error on job id 42: Invalid job id specified",
+                                    ok_text="scancel: Terminating job 42\nscancel: Signal 15 to batch job 42")
+    want = {(False, False): tok("STDOUT"), (True, False): "raise BackendError", (False, True): "raise BackendError", (True, True): "raise BackendError"}
+    r2.check(tbl == want, f"{call_f.module.relpath}::{call_f.qual}::scancel-failure", "a scancel that exits 0 but reports 'scancel: error: ...' after its verbose lines is a BackendError",
+             f"call() over (exit!=0, error line on stderr) for scancel --verbose output gives {tbl}: scancel exits 0 when it fails, so a cancellation that did not happen "
+             "would be reported as done", call_f.where)
     r2.check(res.get("untracked") == "TargetError", tcon + "::untracked", "untracked target -> TargetError",
              f"cancelling a target that was never submitted gives {res.get('untracked')} instead of TargetError", tb_cancel.where)
     # each ops.cancel_job issues exactly one scheduler cancel with the id it is given
